@@ -315,10 +315,29 @@ struct WlInfo {
     ever_member: BTreeSet<u64>,
     max_pal: u64,
     max_cnt: BTreeMap<u64, u64>,
+    /// GHOST, precise (tiered list whitelists only): per stage INDEX, who the harness itself put on that stage and with which
+    /// flex mint_count — maintained from the messages it sent and saw ACCEPTED (first listing of an address wins, as the admin
+    /// messages are documented to behave: an address already on a stage is skipped; a removed stage takes its list and those of
+    /// every later stage with it). An entry the whitelist still answers for after its stage was removed is nobody's entitlement.
+    gstages: Vec<BTreeMap<u64, u64>>,
 }
 
 impl WlInfo {
     /// upper bound of what `who` can ever be entitled to on this whitelist, from the harness' own bookkeeping
+    /// `sid` = 1-based stage id the mint is booked under (0 = not tiered)
+    fn ghost_bound_at(&self, who: u64, sid: u64) -> u64 {
+        let coarse = self.ghost_bound(who);
+        if !is_tiered(self.kind) || is_merkle_wl(self.kind) || sid == 0 {
+            return coarse;
+        }
+        match self.gstages.get(sid as usize - 1) {
+            Some(g) => match g.get(&who) {
+                Some(c) => if is_flex_wl(self.kind) { coarse.min(*c) } else { coarse },
+                None => 0,
+            },
+            None => 0,
+        }
+    }
     fn ghost_bound(&self, who: u64) -> u64 {
         if is_merkle_wl(self.kind) {
             u64::MAX // the harness' own trees are used instead (tree_allocation)
@@ -462,10 +481,15 @@ impl S {
         }
         let args = WlArgs { admin, member_limit: ml, admins_mutable: true, whale_cap: None, stages: wst };
         let a = w.new_whitelist(kind, &args)?;
-        let mut info = WlInfo { addr: a, kind, admin, price, stages: stages.to_vec(), trees, ever_member: BTreeSet::new(), max_pal: 0, max_cnt: BTreeMap::new() };
+        let mut info = WlInfo { addr: a, kind, admin, price, stages: stages.to_vec(), trees, ever_member: BTreeSet::new(), max_pal: 0, max_cnt: BTreeMap::new(), gstages: vec![] };
         for s in stages {
             info.max_pal = info.max_pal.max(s.pal as u64);
             info.ghost_note_members(&s.members);
+            let mut g = BTreeMap::new();
+            for (a, c) in &s.members {
+                g.entry(*a).or_insert(*c as u64);
+            }
+            info.gstages.push(g);
         }
         Ok(info)
     }
@@ -733,7 +757,7 @@ impl S {
             0
         };
         // ... and never more than the harness itself ever granted on that whitelist
-        let ghost = self.wls[&wlid].ghost_bound(who);
+        let ghost = self.wls[&wlid].ghost_bound_at(who, sid);
         if ghost < from_answers && count_diag {
             self.mon_ghost_tighter += 1;
         }
@@ -811,6 +835,36 @@ impl S {
         };
         let r = self.world().exec(&addr(info.admin), &info.addr, &msg, &[]);
         let ok = r.is_ok();
+        if ok && tiered {
+            if let Some(g) = self.wls.get_mut(&id) {
+                let j = j as usize;
+                match kv(line, "op").unwrap_or("") {
+                    "add" => {
+                        if let Some(st) = g.gstages.get_mut(j) {
+                            for (a, c) in &members {
+                                st.entry(*a).or_insert(*c as u64);
+                            }
+                        }
+                    }
+                    "rm" => {
+                        if let Some(st) = g.gstages.get_mut(j) {
+                            for (a, _) in &members {
+                                st.remove(a);
+                            }
+                        }
+                    }
+                    "rmstage" => g.gstages.truncate(j),
+                    "addstage" => {
+                        let mut st = BTreeMap::new();
+                        for (a, c) in &members {
+                            st.entry(*a).or_insert(*c as u64);
+                        }
+                        g.gstages.push(st);
+                    }
+                    _ => {}
+                }
+            }
+        }
         (format!("{line} res={}", ok as u8), self.out(ok, "-", "-"))
     }
 
@@ -2167,6 +2221,69 @@ fn scenario_handover(ses: &mut Session, sut: &mut S, rng: &mut Rng, idx: u64, ta
     ses.end_case();
 }
 
+/// Stage removal and re-adding (seeded C03-6): a tiered list whitelist with three stages; the admin removes stage 1 (which takes
+/// stage 2 with it) before anything started and adds both again with a RE-PLANNED last stage — one buyer's flex mint_count
+/// lowered from 3 to 1 (plain tiered: per_address_limit 1), another buyer not listed any more. What the buyers may mint in the
+/// re-added stage is what the harness put on it (the precise per-stage ghost), not what an earlier stage of the same index held.
+fn scenario_readd(ses: &mut Session, sut: &mut S, rng: &mut Rng, idx: u64, table: &BTreeMap<(usize, usize), u64>) {
+    let cands: Vec<(MinterKind, WlKind)> = ALL_MINTERS[..C03_MINTERS]
+        .iter()
+        .flat_map(|mk| [WlKind::Tiered, WlKind::TieredFlex].into_iter().filter(move |wk| level(table, *mk, *wk) == 2).map(move |wk| (*mk, wk)))
+        .collect();
+    if cands.is_empty() {
+        return;
+    }
+    let (mk, wk) = cands[(idx as usize) % cands.len()];
+    let flex = is_flex_wl(wk);
+    let t0 = GENESIS + 1_000_000_000 + rng.below(1000) * U;
+    ses.begin_case(sut, &format!("case t0={t0} addrs={},{} sc=readd{idx} mk={}", ADMIN, fmt_list(&BUYERS), mk.name()));
+    let c = |n: u32| if flex { n } else { 0 };
+    let (s0, s1, s2, e2) = (t0 + 10 * U, t0 + 14 * U, t0 + 18 * U, t0 + 24 * U);
+    let old = vec![
+        StageSpec { start: s0, end: s1, pal: 2, mcl: None, members: vec![(BUYERS[0], c(2))] },
+        StageSpec { start: s1, end: s2, pal: 2, mcl: None, members: vec![(BUYERS[1], c(2))] },
+        StageSpec { start: s2, end: e2, pal: 3, mcl: None, members: vec![(BUYERS[2], c(3)), (BUYERS[3], c(2))] },
+    ];
+    let wp = WlPlan { id: 0, kind: wk, stages: old.clone(), ls: false, dk: false, pad: 0 };
+    let o = ses.step(sut, &newwl_line(&wp, 10, 60_000_000));
+    let mut trail = vec![o[..2].to_string()];
+    // the removed index is 1 on even rounds (stage 2 goes with it), 2 on odd rounds (only the last stage is re-planned)
+    let from = if (idx / cands.len() as u64) % 2 == 0 { 1 } else { 2 };
+    let o = ses.step(sut, &format!("wlop wl=0 op=rmstage stage={from}"));
+    trail.push(o[..2].to_string());
+    if from == 1 {
+        let o = ses.step(sut, &format!("wlop wl=0 op=addstage s={s1} e={s2} pal=2 mcl=- m={}.{}", BUYERS[1], c(2)));
+        trail.push(o[..2].to_string());
+    }
+    let o = ses.step(sut, &format!("wlop wl=0 op=addstage s={s2} e={e2} pal=1 mcl=- m={}.{}", BUYERS[2], c(1)));
+    trail.push(o[..2].to_string());
+    let start = e2 + rng.range(0, 3) * U;
+    let end = if mk.is_open_edition() { Some(start + 40 * U) } else { None };
+    let o = ses.step(sut, &format!("create mk={} wl=0 lim=3 ntok=20 maxpal=5 admin={ADMIN} start={start} end={}", mk.idx(), fmt_opt(&end)));
+    trail.push(o[..2].to_string());
+    if !o.starts_with("ok") {
+        ses.mark(format!("readd:{}:{:?}:create-refused:{}", mk.name(), wk, trail.join(",")));
+        ses.end_case();
+        return;
+    }
+    let mut now_stages = old.clone();
+    now_stages[2] = StageSpec { start: s2, end: e2, pal: 1, mcl: None, members: vec![(BUYERS[2], c(1))] };
+    let plan = Plan { mk, wls: vec![WlPlan { stages: now_stages, ..wp }], start, end, maxpal: 5, instants: vec![start] };
+    // end instants are inclusive: at s2 itself the earlier stage still answers
+    ses.step(sut, &format!("t {}", s2 + 1 + rng.below(3)));
+    let mut got: Vec<String> = vec![];
+    for (b, n) in [(BUYERS[2], 3), (BUYERS[3], 2), (BUYERS[1], 1)] {
+        let before = sut.mon.wl_mints.values().sum::<u64>();
+        for _ in 0..n {
+            gen_mint_as(ses, sut, rng, &plan, b);
+        }
+        got.push((sut.mon.wl_mints.values().sum::<u64>() - before).to_string());
+    }
+    // re-planned buyer: exactly the new entitlement; dropped buyer and the other stage's member: nothing
+    ses.mark(format!("readd:{}:{:?}:from{from}:{}:{}", mk.name(), wk, trail.join(","), got.join(",")));
+    ses.end_case();
+}
+
 /// F-C03 regression corpus: a Merkle minter wired to a plain whitelist, member limit 1, self-declared allocation 5
 fn corpus_self_raise(ses: &mut Session, sut: &mut S, mk: MinterKind, wk: WlKind) {
     let t0 = GENESIS + 1_000_000_000;
@@ -2257,6 +2374,11 @@ fn main() {
     for i in 0..n_swap {
         scenario_swap(&mut ses, &mut sut, &mut rng, i, &table);
     }
+    // every (minter, tiered list whitelist) pairing that can mint, removed from index 1 and from index 2
+    let n_pairs = ALL_MINTERS[..C03_MINTERS].iter().map(|mk| [WlKind::Tiered, WlKind::TieredFlex].iter().filter(|wk| level(&table, *mk, **wk) == 2).count() as u64).sum::<u64>();
+    for i in 0..2 * n_pairs * ses.scale(1, 6) {
+        scenario_readd(&mut ses, &mut sut, &mut rng, i, &table);
+    }
     let n = ses.scale(300, 8000);
     for i in 0..n {
         scenario(&mut ses, &mut sut, &mut rng, i, &table);
@@ -2280,6 +2402,12 @@ fn main() {
                     ses.require(format!("req:stage:reject-full:{name}:{:?}", wk));
                     ses.require(format!("req:stage:accept-last:{name}:{:?}", wk));
                     ses.require(format!("handover:edge:{name}:{:?}:at", wk));
+                    if !is_merkle_wl(wk) {
+                        // stage removed and re-added with a re-planned list: the re-planned buyer gets exactly the new
+                        // entitlement, the dropped buyer and the other stage's member nothing
+                        ses.require(format!("readd:{name}:{:?}:from1:ok,ok,ok,ok,ok:1,0,0", wk));
+                        ses.require(format!("readd:{name}:{:?}:from2:ok,ok,ok,ok:1,0,0", wk));
+                    }
                 }
             }
         }
